@@ -40,7 +40,7 @@ SITES = ['reindex_fill', 'shift_fill', 'series_concat', 'frame_concat_rows', 'fr
          'assign_array', 'assign_frame_element', 'fillna_element', 'fillna_series', 'from_records', 'series_from_list', 'row_consolidation',
          'values_2d', 'iter_tuple', 'index_append', 'index_union', 'from_overlay', 'frame_reindex_fill', 'frame_shift_fill',
          'fillna_forward_axis1', 'unset_index', 'insert_fill', 'series_from_dict', 'frame_from_dict_records', 'index_from_list',
-         'fillna_forward_axis1_block', 'fillna_backward_axis1_block']
+         'fillna_forward_axis1_block', 'fillna_backward_axis1_block', 'assign_frame_into_block', 'series_insert']
 
 
 def _is_str(dt):
@@ -370,6 +370,39 @@ def run_site(case):
                     o.cell(v, r.iloc[i, pos], role)
                     if not canon.is_missing(v):
                         carried = (v, role)
+    elif site == 'assign_frame_into_block':
+        # target: two columns of dtype a consolidated in one 2-D block; value: a Frame whose two columns have dtypes a and b
+        from static_frame.core.type_blocks import TypeBlocks
+        aw = av[1:] + av[:1]
+        block = np.empty((n, 2), dtype=np.dtype(a))
+        block[:, 0] = V.to_array(av, a)
+        block[:, 1] = V.to_array(aw, a)
+        block.flags.writeable = False
+        f = sf.Frame(TypeBlocks.from_blocks([block, np.array([1, 2, 3], dtype=np.int16)]), index=list('xyz'), columns=['p', 'q', 'k'])
+        rows = ['x', 'z']
+        swap = bool((case.get('mask') or [False])[0])
+        vcols = [('p', a, [av[2], av[0]]), ('q', b, [bv[0], bv[1]])]
+        if swap:  # the differently typed value column comes first
+            vcols = [('p', b, [bv[0], bv[1]]), ('q', a, [av[2], av[0]])]
+        value = sf.Frame.from_items([(lab, V.to_array(vals, dt)) for lab, dt, vals in vcols], index=rows)
+        r = f.assign.loc[rows, ['p', 'q']](value)
+        for lab, dt, vals in vcols:
+            for rl, v in zip(rows, vals):
+                o.cell(v, r.loc[rl, lab], 'a' if dt == a else 'b')
+        o.cell(av[1], r.loc['y', 'p'], 'a')
+        o.cell(aw[1], r.loc['y', 'q'], 'a')
+        o.untouched('int16', r.dtypes.values[2], 'unaddressed column k')
+    elif site == 'series_insert':
+        # insertion of a Series of dtype b into a Series of dtype a at every position, before and after
+        s1 = _series(av, a, index=list('xyz'))
+        s2 = _series(bv[:2], b, index=['m', 'n'])
+        pos = (case.get('order') or [0])[0] % 3
+        after = bool((case.get('mask') or [False, False])[1])
+        r = s1.insert_after('xyz'[pos], s2) if after else s1.insert_before('xyz'[pos], s2)
+        for i, lab in enumerate('xyz'):
+            o.cell(av[i], r.loc[lab], 'a')
+        o.cell(bv[0], r.loc['m'], 'b')
+        o.cell(bv[1], r.loc['n'], 'b')
     elif site == 'unset_index':
         if any(canon.is_missing(v) for v in av):
             return None
